@@ -449,3 +449,75 @@ K("c13k-first-after-renamed",
 K("c13k-is-valid-iter-self",
   ("data", "        for iter_timepoint in self.__iter__():",
    "        for iter_timepoint in self:"))
+
+
+# ================================================================ C16 ======
+B("c16-add-works-on-self", ["C16"], ["R01", "R02"],
+  ("data", "        duration = other\n        if duration.get_is_in_weeks():\n"
+           "            duration = duration.to_days()\n        new = self._copy()",
+   "        duration = other\n        if duration.get_is_in_weeks():\n"
+   "            duration = duration.to_days()\n        new = self"),
+  canary=True)
+B("c16-add-months-works-on-self", ["C16"], ["R01", "R02"],
+  ("data", "        if num_months == 0:\n            return self\n        new = self._copy()",
+   "        if num_months == 0:\n            return self\n        new = self"))
+B("c16-to-days-mutates-self", ["C16"], ["R01"],
+  ("data", "        if self.get_is_in_weeks():\n            new = self._copy()\n            for attribute in",
+   "        if self.get_is_in_weeks():\n            new = self\n            for attribute in"))
+B("c16-duration-add-mutates-self", ["C16"], ["R01"],
+  ("data", "    def __add__(self, other):\n        new = self._copy()\n        if isinstance(other, Duration):",
+   "    def __add__(self, other):\n        new = self\n        if isinstance(other, Duration):"))
+B("c16-tick-over-in-to-time-zone", ["C16"], ["R02"],
+  ("data", "        if dest_time_zone._unknown:\n            return self\n",
+   "        if dest_time_zone._unknown:\n            return self\n        self._tick_over()\n"))
+B("c16-conversion-result-written", ["C16"], ["R01"],
+  ("data", "    def to_hour_minute_second(self) -> \"TimePoint\":\n"
+           "        \"\"\"Return a copy of this TimePoint with any time fractions expanded\n"
+           "        into hours, minutes and seconds.\"\"\"\n"
+           "        new = self._copy()",
+   "    def to_hour_minute_second(self) -> \"TimePoint\":\n"
+   "        \"\"\"Return a copy of this TimePoint with any time fractions expanded\n"
+   "        into hours, minutes and seconds.\"\"\"\n"
+   "        new = self.to_calendar_date()"),
+  note="to_calendar_date may return self; writing its result mutates the receiver")
+B("c16-iadd-defined", ["C16"], ["R02"],
+  ("data", "    def __rmul__(self, other):\n        return self.__mul__(other)",
+   "    def __rmul__(self, other):\n        return self.__mul__(other)\n\n"
+   "    def __iadd__(self, other):\n        self._seconds += other._seconds\n        return self"))
+B("c16-public-mutator", ["C16"], ["R02", "R01"],
+  ("data", "    def get_props(self) -> list:",
+   "    def normalise(self):\n        \"\"\"Normalise in place.\"\"\"\n        self._tick_over()\n\n"
+   "    def get_props(self) -> list:"))
+B("c16-cached-list-reversed", ["C16"], ["R03"],
+  ("data", "            for month, day in iter_months_days(\n"
+           "                    self._year,\n"
+           "                    month_of_year=self._month_of_year,\n"
+           "                    day_of_month=1, in_reverse=True):",
+   "            days = iter_months_days(\n"
+   "                self._year, month_of_year=self._month_of_year,\n"
+   "                day_of_month=1)\n"
+   "            days.reverse()\n"
+   "            for month, day in days:"), canary=True)
+B("c16-zone-written-through-alias", ["C16"], ["R01"],
+  ("data", "        new = self + (dest_time_zone - self._time_zone)\n"
+           "        new._time_zone = dest_time_zone",
+   "        new = self + (dest_time_zone - self._time_zone)\n"
+   "        new._time_zone = dest_time_zone\n"
+   "        dest_time_zone._unknown = False"))
+B("c16-recurrence-setter", ["C16"], ["R01", "R02"],
+  ("data", "    def get_is_valid(self, timepoint: \"TimePoint\") -> bool:",
+   "    def set_max_point(self, point):\n        self._max_point = point\n\n"
+   "    def get_is_valid(self, timepoint: \"TimePoint\") -> bool:"))
+B("c16-parser-patches-timepoint", ["C16"], ["R01"],
+  ("parsers", "            if timepoint.get_is_week_date():\n"
+              "                raise ISO8601SyntaxError(\"duration\", expression)",
+   "            if timepoint.get_is_week_date():\n"
+   "                raise ISO8601SyntaxError(\"duration\", expression)\n"
+   "            timepoint._dump_format = None"),
+  note="legal today only because the point is fresh from the parser; but a store from another module")
+K("c16k-add-rename-working-copy",
+  ("data", re.compile(r"(    def add_months\(self, num_months\):.*?)(\n    def _tick_over\()", re.S),
+   lambda m: m.group(1).replace("new", "result") + m.group(2)))
+K("c16k-copy-explicit-class",
+  ("data", "        new = self.__class__(_is_empty_instance=True)",
+   "        new = type(self)(_is_empty_instance=True)"))
